@@ -70,6 +70,16 @@ class Ctx:
                 cases = [c for c in cases if c['id'] in self.only or any(str(o).startswith(str(c['id'])) for o in self.only)]
         for c in cases:
             self.case_index[c['id']] = (module, c)
+            # what was actually exercised: cases per event kind (and per action of the state-machine traces) - an event kind that
+            # never occurs means the clause it carries was not exercised in this run
+            kind = str(c.get('ev'))
+            act = c.get('act')
+            if isinstance(act, dict):
+                kind += ':' + str(act.get('a'))
+            elif isinstance(act, str):
+                kind += ':' + act
+            by = self.extra.setdefault('cases_by_event', {})
+            by[module + '.' + kind] = by.get(module + '.' + kind, 0) + 1
         if not self.quick:
             timeout = max(timeout, 7200)          # the thorough tier may share the machine: a slow shard is not a verdict
         r = tlc.validate_cases(module, cases, shards=shards, timeout=timeout, heap=heap, extra_env=env, group=group, cfg=cfg)
